@@ -8,6 +8,7 @@ import (
 	"sort"
 	"strings"
 	"time"
+	"unsafe"
 
 	"github.com/SAP/go-dblib/tds"
 	"github.com/SAP/go-dblib/zz_verif/peer"
@@ -52,6 +53,9 @@ type c12Plan struct {
 	// NewChannel / SendPackage / NextPackage / Close. Then only safety is judged: every task returns, nothing
 	// panics, no data race, the reader ends.
 	CloseEarly int `json:"close_early,omitempty"`
+	// IdBase > 0: the connection has handed out this many channel ids before (its counter is set to it): the
+	// ids run out at 65535 - the tasks beyond that must be refused, not given an id that wraps around.
+	IdBase int `json:"id_base,omitempty"`
 }
 
 type c12 struct{}
@@ -118,6 +122,9 @@ func (c12) Gen(r *Rand, idx int, tier string) interface{} {
 	}
 	if r.Pct(10) {
 		p.CloseEarly = 1 + r.Intn(60)
+	}
+	if r.Pct(6) && len(p.Tasks) > 1 {
+		p.IdBase = 65536 - r.Intn(len(p.Tasks)+1)
 	}
 	p.BodySize = Pick(r, []int{1, 5, 9, 18, 504})
 	total := 0
@@ -188,6 +195,11 @@ func (c12) Shrink(plan interface{}) []interface{} {
 	if p.QueueSize != 100 {
 		q := *p
 		q.QueueSize = 100
+		out = append(out, &q)
+	}
+	if p.IdBase > 0 {
+		q := *p
+		q.IdBase = 0
 		out = append(out, &q)
 	}
 	return out
@@ -273,6 +285,9 @@ func (c12) Run(plan interface{}, schedSeed uint64, replay []simrt.Choice, lenien
 		ci := chans[c]
 		switch pk.H.Type {
 		case peer.BufSetup:
+			if c == 0 || (p.IdBase > 0 && int(c) < p.IdBase) {
+				wireViol = append(wireViol, fmt.Sprintf("wrong-channel-id|SETUP for channel %d: not an id a new logical channel can have (ids handed out before: %d)", c, p.IdBase))
+			}
 			if ci != nil && ci.live {
 				wireViol = append(wireViol, fmt.Sprintf("duplicate-id|SETUP for channel %d while a channel with that id is still open", c))
 			}
@@ -407,6 +422,10 @@ func (c12) Run(plan interface{}, schedSeed uint64, replay []simrt.Choice, lenien
 			return
 		}
 		_ = ch0
+		if p.IdBase > 0 {
+			f := reflect.ValueOf(conn).Elem().FieldByName("tdsChannelCurFreeId")
+			*(*uint32)(unsafe.Pointer(f.UnsafeAddr())) = uint32(p.IdBase)
+		}
 		var ts []*simrt.Task
 		for ti := range p.Tasks {
 			ti := ti
@@ -592,10 +611,15 @@ func (c12) Run(plan interface{}, schedSeed uint64, replay []simrt.Choice, lenien
 	}
 	totalInvalid := mainInvalid
 	concurrentSetup := false
+	exhausted := 0
 	for ti, tr := range res {
 		tp := p.Tasks[ti]
 		if tr.skipped {
 			totalInvalid += tr.invalid
+			continue
+		}
+		if p.IdBase > 0 && strings.Contains(tr.newErr, "exhausted all channel IDs") {
+			exhausted++
 			continue
 		}
 		if tr.newErr != "" {
@@ -626,6 +650,18 @@ func (c12) Run(plan interface{}, schedSeed uint64, replay []simrt.Choice, lenien
 			if tj != ti && tr.closeRet > 0 && o.closeRet > 0 && tr.closeCall < o.closeRet && o.closeCall < tr.closeRet {
 				concurrentSetup = true
 			}
+		}
+	}
+	if p.IdBase > 0 {
+		wantEx := len(p.Tasks) - (65536 - p.IdBase)
+		if wantEx < 0 {
+			wantEx = 0
+		}
+		if exhausted != wantEx {
+			v.Violate("id-exhaustion", "channel ids beyond 65535", "%d channel ids had been handed out before, %d tasks asked for one more each: %d must be refused (ids end at 65535), %d were", p.IdBase, len(p.Tasks), wantEx, exhausted)
+		}
+		if wantEx > 0 {
+			v.Probe("channel-ids-exhausted")
 		}
 	}
 	// a late packet that reaches the connection after its channel was removed is reported like an unknown-channel packet
